@@ -20,7 +20,7 @@ EXPLANATION = (
     "optionally with Connection: close -, peer sends an unsolicited complete response on an idle connection, peer closes "
     "the connection, caller cancels}. Every response delivered to a caller must echo that caller's own request path "
     "(or the call fails); a connection that saw surplus or unsolicited bytes, a truncated body, an error or a cancel must "
-    "not serve a later request; connections are only reused for the same host.")
+    "not serve a later request; connections are only reused for the same host, port and scheme.")
 ASSUMPTIONS = [
     "the peer is scripted on in-memory transports (no sockets, TLS, proxies); DNS is bypassed by a BaseConnector subclass whose _create_connection returns a real ResponseHandler",
     "virtual time; cookie jar is a DummyCookieJar",
@@ -255,4 +255,4 @@ REQUIRED_OUTCOMES = ("1req:1conn", "2req:1conn", "2req:2conn")
 
 def bounds(tier):
     return {"steps": "k=5 (quick) / 7; first step GET on host a, second each enabled operation (one job each)",
-            "requests": "up to 4 GETs on 2 hosts", "time": "up to two advances of virtual time (10 s / 6 s) per history; keepalive_timeout 15 s", "peer": "answer / answer+surplus / truncated / Connection: close / unsolicited response / EOF on any open connection; caller cancel"}
+            "requests": "up to 4 GETs on 2 hosts; one job with three endpoints that share a host name (http://a, http://a:81, https://a)", "time": "up to two advances of virtual time (10 s / 6 s) per history; keepalive_timeout 15 s", "peer": "answer / answer+surplus / truncated / Connection: close / unsolicited response / EOF on any open connection; caller cancel"}
